@@ -1,4 +1,5 @@
 """C07 one flow message per flow record, in order; none lost, duplicated or invented."""
+import random
 from pipefam import *
 
 GEN = 'C06'
@@ -7,13 +8,15 @@ RULE = ('same histories as C06 (v5, v9, IPFIX datagrams with 0..60 records per s
         'unknown-template sets) through the real pipe with a recording transport, plus byte-level mutants '
         '(truncations, inflated counts/lengths); compared per datagram: error class, number of Send calls, and the '
         'bytes/packets columns of each message in order; oracle on the implementation alone: a v5 datagram never '
-        'yields more messages than (len-24)/48, any datagram never more messages than bytes. '
+        'yields more messages than (len-24)/48, any datagram never more messages than bytes; sFlow datagrams (C09 generator) and '
+        'mutants of their sample count / truncations: one message per flow or expanded flow sample, none for counter / drop '
+        'samples or empty slots. '
         'non-trivial = at least one datagram produced a message; distinct by input')
 TRUSTED = ['Coq 8.16.1 kernel (coqc)', 'extraction + ocaml/main.ml glue',
            'Go harness harness/pipe.go, bin/engine.py, bin/pipefam.py',
            'modelled, not verified: utils/pipe.go, producer/proto SearchNetFlowDataSets / SearchNetFlowLegacyRecords / formatSend']
 ASSUMPTIONS = ['Model/Pipe.v corresponds to the pipe on all histories, as sampled by this run',
-               'sFlow sample counting is covered by C04/C09 models; formatSend stops at the first format error (not reachable with the bin format)']
+               'formatSend stops at the first format error (not reachable with the bin format)']
 STREAMS = [dict(name='hist', stream=0, n=dict(quick=250, thorough=5000), timeout=120.0)]
 
 
@@ -40,5 +43,44 @@ def oracle(inp, out):
     return True
 
 
+def sflow_part(chk):
+    """sFlow: one message per flow / expanded flow sample, in order; counter samples, drop samples and
+    the empty slots of a datagram that announces more samples than it carries produce nothing.
+    Expected = the sFlow model (Model/ProdSF.v, c09_one_per_flow_sample) on generated datagrams and on
+    mutants with inflated / deflated sample counts and truncations; compared: error class, number of Send
+    calls and the bytes/packets columns in order."""
+    me = sys.modules[__name__]
+    n = dict(quick=400, thorough=8000)[chk.tier]
+    cases = model_gen('C09', 0, chk.seed + 5, 0, n)
+    ins = [c[0] for c in cases]
+    rng = random.Random(chk.seed * 31 + 7)
+    muts = []
+    for a in ins[:max(40, n // 5)]:
+        f = a.split(' ')
+        d = bytes.fromhex(f[-1][1:])
+        ipv = int.from_bytes(d[4:8], 'big')
+        cnt_at = 24 if ipv == 1 else 36
+        for v in (0, 1, 2, 3, 8, 13, 1000):
+            m = d[:cnt_at] + v.to_bytes(4, 'big') + d[cnt_at + 4:]
+            muts.append(' '.join(f[:-1] + ['=' + m.hex()]))
+        for _ in range(3):
+            k = rng.randrange(cnt_at + 4, len(d) + 1) if len(d) > cnt_at + 4 else len(d)
+            muts.append(' '.join(f[:-1] + ['=' + d[:k].hex()]))
+    lines = ins + muts
+    impl = impl_run(chk.harness, lines, timeout=120.0)
+    mod = model_run('C09', lines)
+    chk.evals += len(lines)
+    chk.count('sflow: generated', len(ins))
+    chk.count('sflow: sample-count / truncation mutants', len(muts))
+    for a, o, m in zip(lines, impl, mod):
+        if ' m' in m:
+            chk.nontrivial.add(hashlib.sha1(a.encode()).digest()[:8])
+        if project(o) != project(m):
+            chk.record('scopeA', dict(concrete=True, input=a[:30000], impl=project(o)[:2000], expected=project(m)[:2000],
+                       what='an sFlow datagram did not yield exactly one message per flow sample, in order'), {})
+    chk.samples.append(dict(stream='sflow', input=lines[0][:400], impl=project(impl[0])[:300], model=project(mod[0])[:300]))
+
+
 def run(chk):
-    return run_pipe_property(chk, sys.modules[__name__], STREAMS, dict(quick=1500, thorough=30000), oracle=oracle)
+    return run_pipe_property(chk, sys.modules[__name__], STREAMS, dict(quick=1500, thorough=30000), oracle=oracle,
+                             extra=sflow_part)
